@@ -585,7 +585,7 @@ func genFaults(c *ctx, emit func(string)) {
 				g.ops = append(g.ops, "A")
 			}
 		}
-		switch r.Intn(13) {
+		switch r.Intn(15) {
 		case 0: // fault inside a suffix truncation, exactly one more batch, reopen
 			if !g.empty() && g.last > g.first {
 				g.ops = append(g.ops, fmt.Sprintf("! %x", r.Intn(2)), fmt.Sprintf("D %x %x", g.last, g.last+uint64(r.Intn(2))))
@@ -674,6 +674,35 @@ func genFaults(c *ctx, emit func(string)) {
 			g.store()
 			g.ops = append(g.ops, "~", "Y")
 			g.store()
+		case 12, 13: // stale bytes behind the valid chain: the fsync of a long batch fails, a
+			// shorter batch is written over its start (and synced, or its fsync fails too:
+			// then it is adopted by the next Open), restart, Open with an armed fault --
+			// recovery zeroes the stale bytes and fsyncs
+			sized := func(idx uint64, n int) string {
+				l := &raft.Log{Index: idx, Term: uint64(1 + r.Intn(5)), Data: bytes.Repeat([]byte{byte(1 + r.Intn(200))}, n), AppendedAt: baseTime}
+				return "S 1 " + logFields(l, true)
+			}
+			next := g.last + 1
+			long := 40 + r.Intn(g.seg/2)
+			g.ops = append(g.ops, "~", "W", "! 1", sized(next, long), "W")
+			switch r.Intn(3) {
+			case 0: // shorter batch, synced
+				g.ops = append(g.ops, "~", sized(next, r.Intn(long/2)), "W")
+				g.last = next
+			case 1: // shorter batch whose fsync fails as well
+				g.ops = append(g.ops, "~", "! 1", sized(next, r.Intn(long/2)), "W")
+			default: // shorter batch synced, then a second short one whose fsync fails
+				g.ops = append(g.ops, "~", sized(next, r.Intn(long/4)), "W", "! 1", sized(next+1, r.Intn(long/4)), "W")
+				g.last = next
+			}
+			if g.first == 0 {
+				g.first = g.last
+			}
+			g.ops = append(g.ops, "~", "T")
+			if r.Intn(2) == 0 {
+				g.ops = append(g.ops, "X")
+			}
+			g.ops = append(g.ops, "Z", fmt.Sprintf("! %x", r.Intn(3)), "O", "T", "A")
 		}
 		g.ops = append(g.ops, "A", "T", "X", "Z", "O", "A", "Y", "P")
 		// after reopen the WAL must be usable again
